@@ -76,7 +76,7 @@ def expr(draw, scope, allow_default=True):
     p = paths(scope)
     if not allow_default:
         p = p.filter(lambda x: x != "default")
-    kind = draw(st.sampled_from(["path", "path", "path", "alt", "exists", "not", "notexists", "nocall", "string", "string"]))
+    kind = draw(st.sampled_from(["path", "path", "path", "alt", "exists", "not", "notexists", "nocall", "string", "string", "existsalt", "nocallalt"]))
     if kind == "path":
         if scope.get("vars") and draw(st.integers(0, 3)) == 0:
             # plain alternation (not under a prefix): value for some items, default / nothing for the others
@@ -90,6 +90,13 @@ def expr(draw, scope, allow_default=True):
         return draw(st.sampled_from([" | ", "|", " |"])).join(parts)
     if kind == "exists":
         return "exists:" + draw(p)
+    if kind == "existsalt":
+        # alternation under exists: - closed by an alternative that always resolves to something true, so that every reading of
+        # "a later alternative that resolves but is false" (TALES leaves it open) gives the same answer
+        return "%sexists:%s | %s | string:yes" % (draw(st.sampled_from(["", "", "not:"])), draw(p), draw(p))
+    if kind == "nocallalt":
+        ok = p.filter(lambda x: not x.startswith(("f1", "fl", "fd", "repeat/")))
+        return "nocall:%s | %s | string:fallback ${s1}" % (draw(ok), draw(ok))
     if kind == "not":
         return "not:" + draw(p)
     if kind == "notexists":
